@@ -65,9 +65,8 @@ def truth(D, grid):
 
 
 def quiet(ctx, fn, *a, **kw):
-    ctx.trans()
     with contextlib.redirect_stdout(io.StringIO()):
-        return fn(*a, **kw)
+        return ctx.call(fn, *a, **kw)
 
 
 def values_of(pl):
@@ -239,6 +238,19 @@ def run_case(case, ctx):
                 ctx.state((D2, start, stop, num))
                 pl = quiet(ctx, PersLandscapeApprox, dgms=[A2], hom_deg=0, num_steps=num, start=start, stop=stop)
                 check_grid(ctx, D2, pl, start, stop, num, "translated by %r, scaled by %r" % (c_, a_), sig="approx-affine")
+    # single-precision input with values that float32 cannot hold exactly: the transformer (which learns its
+    # grid from the data) still returns exactly the sampled values of the approximate landscape
+    A32 = (0.1 * A + 0.05).astype(np.float32)
+    for num in (4, 7):
+        for kw32 in ({}, {"start": 0.0}, {"stop": 0.5}):
+            ctx.state(("f32", D, num, sorted(kw32)))
+            tr = PersistenceLandscaper(hom_deg=0, num_steps=num, **kw32)
+            out = quiet(ctx, tr.fit_transform, [A32, decoy.astype(np.float32)])
+            pl32 = quiet(ctx, PersLandscapeApprox, dgms=[A32], hom_deg=0, num_steps=num, **kw32)
+            ctx.valid()
+            if np.asarray(out).shape != np.asarray(pl32.values).shape or not np.array_equal(np.asarray(out), np.asarray(pl32.values)):
+                ctx.violation("transformer", "PersistenceLandscaper.fit_transform differs from PersLandscapeApprox.values on a float32 diagram",
+                              observed=np.asarray(out).tolist(), expected=np.asarray(pl32.values).tolist(), extra={"D": A32.tolist(), "num_steps": num, "kw": kw32})
     # death vector
     for arr in ([A, decoy], [A[::-1].copy()]):
         dv = quiet(ctx, death_vector, arr)
